@@ -24,7 +24,9 @@ type Prog struct {
 	CoreTokens string   // prefix-coded program for the Lean driver
 	CoreFuncs  []string // all functions of a core program, source order
 	Note       string
-	Imports    string         // import block of the neo source (dialect programs import nothing)
+	Imports    string         // import block of the neo source ("" = none)
+	Files      []string       // multi-file package: the declarations of each file (a.go, b.go, …); Plain is their concatenation
+	HasDeploy  bool           // the source declares _deploy(data any, isUpdate bool)
 	NParams    map[string]int // debug-info method id -> number of INITSLOT arguments the source implies
 }
 
@@ -148,6 +150,51 @@ func genDialectProgram(r *prng.R, k int, ntuples int) *Prog {
 		g.globals = append(g.globals, v)
 		g.f("prog:global")
 	}
+	// --- helpers that the compiler inlines (pkg/compiler/testdata/inline, see canInline in analysis.go): used in
+	// package-level initialisers with argument expressions that call functions (these are stored in temporaries
+	// of _initialize) and inside function bodies
+	useInline := r.Chance(1, 3)
+	imports := ""
+	if useInline {
+		imports = inlineImport
+		g.useInline = true
+		g.f("prog:inline")
+		top.both("func ¶_two() int {\nreturn 2\n}\nfunc ¶_three() int {\nreturn 3\n}\n")
+		for _, n := range []string{"¶_two", "¶_three"} {
+			g.funcs = append(g.funcs, &Func{Name: n, Rets: []Ty{tInt}, Pure: true})
+		}
+		ni := r.Range(1, 3)
+		for i := 0; i < ni; i++ {
+			name := fmt.Sprintf("g¶_%d", ng+i)
+			d1, d2 := r.Range(0, 9), r.Range(0, 9)
+			var e E
+			switch r.Intn(9) {
+			case 0:
+				e = atom2("inline.Sum(¶_two(), ¶_three())", "ck_add(¶_two(), ¶_three())")
+			case 1:
+				e = atom2(fmt.Sprintf("inline.SumSquared(¶_two(), %d)", d1), fmt.Sprintf("ck_mul(ck_add(¶_two(), %d), ck_add(¶_two(), %d))", d1, d1))
+			case 2:
+				e = atom2("inline.NoArgsReturn1()", "1")
+			case 3:
+				e = atom2(fmt.Sprintf("inline.VarSum(¶_two(), ¶_three(), %d)", d1), fmt.Sprintf("ck_add(ck_add(¶_two(), ¶_three()), %d)", d1))
+			case 4:
+				e = atom2(fmt.Sprintf("inline.Sum(%d, %d)", d1, d2), fmt.Sprintf("ck_add(%d, %d)", d1, d2))
+			case 5:
+				e = atom2("inline.Concat(¶_three())", "ck_add(ck_mul(¶_three(), 100), 121)")
+			case 6:
+				e = atom2("inline.GetSumSameName()", "42")
+			case 7:
+				e = atom2(fmt.Sprintf("inline.Sum(inline.Sum(¶_two(), %d), ¶_three())", d1), fmt.Sprintf("ck_add(ck_add(¶_two(), %d), ¶_three())", d1))
+			default:
+				e = atom2(fmt.Sprintf("inline.SumSquared(¶_three(), ¶_two()) + %d", d2), fmt.Sprintf("ck_add(ck_mul(ck_add(¶_three(), ¶_two()), ck_add(¶_three(), ¶_two())), %d)", d2))
+			}
+			top.pc(fmt.Sprintf("var %s = %s\n", name, e.p), fmt.Sprintf("var %s = %s\n", name, e.c))
+			resetB.pc(fmt.Sprintf("%s = %s\n", name, e.p), fmt.Sprintf("%s = %s\n", name, e.c))
+			g.globals = append(g.globals, &Var{Name: name, Ty: tInt, Global: true, Used: true})
+			g.f("prog:global-inline-init")
+		}
+		ng += ni
+	}
 	// globals are not in g.scopes (visible() appends them); keep the bottom scope for nothing
 	hasInit := false
 	if ng > 0 && r.Chance(1, 3) {
@@ -248,7 +295,7 @@ func genDialectProgram(r *prng.R, k int, ntuples int) *Prog {
 	}
 
 	// --- entries
-	p := &Prog{K: k, Kind: "dialect", Feat: g.feat, NParams: nparams}
+	p := &Prog{K: k, Kind: "dialect", Feat: g.feat, NParams: nparams, Imports: imports}
 	ne := r.Range(1, 3)
 	for i := 0; i < ne; i++ {
 		f := &Func{Name: fmt.Sprintf("§_F%d", i)}
@@ -297,8 +344,32 @@ func genDialectProgram(r *prng.R, k int, ntuples int) *Prog {
 	g.pop()
 
 	pl, ch := top.E().p, top.E().c
+	// --- _deploy: reserved name, compiled into its own method with two arguments; first or last declaration
+	if r.Chance(1, 3) {
+		body := ""
+		if recGlobal != nil {
+			body = fmt.Sprintf("%s = %s + 1\n", recGlobal.Name, recGlobal.Name)
+		}
+		d := "func _deploy(data any, isUpdate bool) {\n" + body + "}\n"
+		if r.Bool() {
+			pl, ch = d+pl, d+ch
+			g.f("prog:deploy-first")
+		} else {
+			pl, ch = pl+d, ch+d
+			g.f("prog:deploy-last")
+		}
+		p.HasDeploy = true
+		nparams["_deploy"] = 2
+	}
 	p.Plain = rename(pl, k, false)
 	p.Checked = rename(ch, k, true)
+	// --- multi-file package: the declarations cut into 2-3 contiguous files (a.go, b.go, c.go)
+	if r.Chance(1, 4) {
+		p.Files = splitFiles(r, p.Plain, k)
+		if len(p.Files) > 1 {
+			g.f(fmt.Sprintf("prog:multi-file-%d", len(p.Files)))
+		}
+	}
 	if hasInit {
 		p.Init = initB.E().p
 		p.InitC = initB.E().c
@@ -315,6 +386,39 @@ func genDialectProgram(r *prng.R, k int, ntuples int) *Prog {
 		e.Name = rename(e.Name, k, false)
 	}
 	return p
+}
+
+// splitFiles cuts the top-level declarations (in their order: Go initialises package variables of several files in
+// the order the files are presented, the relative order is kept) into 2-3 files.
+func splitFiles(r *prng.R, plain string, k int) []string {
+	lines := strings.SplitAfter(plain, "\n")
+	gpfx := fmt.Sprintf("var gp%d_", k)
+	var starts []int
+	for i, l := range lines {
+		if strings.HasPrefix(l, "func ") || strings.HasPrefix(l, "type ") || strings.HasPrefix(l, gpfx) {
+			starts = append(starts, i)
+		}
+	}
+	if len(starts) < 2 {
+		return nil
+	}
+	nf := min(r.Range(2, 3), len(starts))
+	// choose nf-1 distinct cut points among the declaration starts (not the first)
+	cuts := map[int]bool{}
+	for len(cuts) < nf-1 {
+		cuts[starts[1+r.Intn(len(starts)-1)]] = true
+	}
+	var files []string
+	var cur strings.Builder
+	for i, l := range lines {
+		if cuts[i] {
+			files = append(files, cur.String())
+			cur.Reset()
+		}
+		cur.WriteString(l)
+	}
+	files = append(files, cur.String())
+	return files
 }
 
 // observe emits statements that xor-fold every visible container / string / struct into a fresh int variable.
